@@ -205,6 +205,33 @@ Proof.
   apply select_length. apply covers_length. apply (proj2 (mask_covers n A HF)). exact Hin.
 Qed.
 
+(* the code logged for a chain at the j-th logged transition is the code that chain returned there *)
+Lemma select_where : forall m (row : list nat) i, length m = length row ->
+  Forall2 (fun t x => i <= t /\ nth_error row (t - i) = Some x) (where_from i m) (select m row).
+Proof.
+  induction m as [|b m IH]; intros [|x row] i H; cbn in H; try discriminate; [constructor|].
+  assert (Hrest : Forall2 (fun t y => i <= t /\ nth_error (x :: row) (t - i) = Some y)
+                          (where_from (S i) m) (select m row)).
+  { assert (Hlen : length m = length row) by congruence.
+    specialize (IH row (S i) Hlen). induction IH as [|t y ts ys [Hle Hnth] _ IH']; constructor; [|exact IH'].
+    split; [lia|]. replace (t - i) with (S (t - S i)) by lia. exact Hnth. }
+  cbn [where_from select]. destruct b; [|exact Hrest].
+  constructor; [|exact Hrest]. split; [lia|]. rewrite Nat.sub_diag. reflexivity.
+Qed.
+
+Theorem log_entries_exact : forall n A k row, Forall (fun r => length r = n) A -> nth_error A k = Some row ->
+  exists mrow, nth_error (kel_codes (error_log_of A)) k = Some mrow /\
+               Forall2 (fun t x => nth_error row t = Some x) (kel_transition (error_log_of A)) mrow.
+Proof.
+  intros n A k row HF Hk. unfold error_log_of. cbn [kel_codes kel_transition].
+  exists (select (mask_of A) row). split; [rewrite nth_error_map, Hk; reflexivity|].
+  assert (Hlen : length (mask_of A) = length row).
+  { apply covers_length. apply (proj2 (mask_covers n A HF)). eapply nth_error_In; exact Hk. }
+  pose proof (select_where (mask_of A) row 0 Hlen) as H.
+  induction H as [|t x ts xs [_ Hnth] _ IH]; constructor; [|exact IH].
+  rewrite Nat.sub_0_r in Hnth. exact Hnth.
+Qed.
+
 (* ---------------------------------------------------------------------------------------- *)
 (* the per-epoch store: combine_all / combine_filtered against counting by global index       *)
 Lemma combine_if_cons : forall {X} f (e : epoch) (l : list X) bs,
@@ -477,13 +504,15 @@ Lemma summarize_inv : forall r su, summarize r = Some su ->
   /\ su_info su = sample_info_of (r_sched r) (map (pos_stored is_post (r_sched r)) (r_pos r))
   /\ su_errors su = map (kernel_entries (r_sched r)) (r_kernels r)
   /\ su_df_chain su = error_df_chain (su_info su) (su_errors su)
-  /\ su_df_agg su = error_df_agg (su_info su) (su_errors su).
+  /\ su_df_agg su = error_df_agg (su_info su) (su_errors su)
+  /\ forallb (forallb has_msg) (su_errors su) = true.
 Proof.
   intros r su H. unfold summarize, posterior_samples in H.
   destruct (existsb is_post (r_sched r)) eqn:Hp; [|discriminate].
   assert (Hs : r_sched r <> []) by (intros Heq; rewrite Heq in Hp; discriminate).
   rewrite (opt_all_map_some _ (kernel_entries (r_sched r))) in H.
-  - injection H as <-. cbn. auto.
+  - destruct (forallb (forallb has_msg) (map (kernel_entries (r_sched r)) (r_kernels r))) eqn:Hm; [|discriminate].
+    injection H as <-. cbn. auto 7.
   - intros [book E] _. rewrite (kernel_summary_of_some _ book E Hs), Hp. reflexivity.
 Qed.
 
@@ -718,7 +747,7 @@ Theorem df_agg_exact : forall r su, rectangular r -> summarize r = Some su ->
                  (mean_rel (map (fun row => rel (spec_count (r_sched r) ph c row) (phase_size (su_info su) ph)) (k_E kin))).
 Proof.
   intros r su Hrect Hsu. destruct (groups_exact r su Hrect Hsu) as [gs [Hgs Hin]].
-  destruct (summarize_inv r su Hsu) as [_ [_ [_ [_ Hagg]]]].
+  destruct (summarize_inv r su Hsu) as [_ [_ [_ [_ [Hagg _]]]]].
   rewrite Hagg. unfold error_df_agg. rewrite Hgs. cbn [option_map]. eexists. split; [reflexivity|].
   intros a. rewrite in_flat_map. split.
   - intros [g [Hg Ha]]. apply Hin in Hg. destruct Hg as [ki [kin [c [ph [Hkin [Hocc ->]]]]]].
@@ -733,6 +762,138 @@ Proof.
       destruct Hocc as [_ [row [Hrow _]]]. apply in_map_iff in Hrow. destruct Hrow as [row' [_ Hrow']].
       destruct (k_E kin) as [|x l] eqn:HE; [destruct Hrow'|].
       cbn [map]. left. rewrite map_map. reflexivity.
+Qed.
+
+(* the kernel's documented message: Summary(results) exists only if every occurring non-zero code
+   has an entry in the kernel's error book, and that entry is the message shown in every row *)
+Theorem messages_documented : forall r su, rectangular r -> summarize r = Some su ->
+  forall ki kin c, nth_error (r_kernels r) ki = Some kin -> occurs_in_run (r_sched r) c kin ->
+  exists m, lookup (k_book kin) c = Some m.
+Proof.
+  intros r su [n Hrect] Hsu ki kin c Hkin Hocc.
+  destruct (summarize_inv r su Hsu) as [Hp [_ [Herr [_ [_ Hmsg]]]]].
+  set (s := r_sched r) in *.
+  assert (Hs : s <> []) by (intros Heq; rewrite Heq in Hp; discriminate).
+  assert (Hk : In kin (r_kernels r)) by (eapply nth_error_In; exact Hkin).
+  destruct kin as [book E]. pose proof (Hrect _ Hk) as HF. cbn [k_E] in HF.
+  pose proof (kernel_entries_of s (mkK book E) Hs Hp) as Hes.
+  destruct (codes_complete s book E n _ HF Hes) as [Hcodes _].
+  apply Hcodes in Hocc. apply in_map_iff in Hocc. destruct Hocc as [e [<- He]].
+  destruct (counts_exact s book E n _ HF Hp Hes e He) as [Hm _].
+  rewrite Herr in Hmsg. rewrite forallb_forall in Hmsg.
+  specialize (Hmsg (kernel_entries s (mkK book E)) (in_map _ _ _ Hk)).
+  rewrite forallb_forall in Hmsg. specialize (Hmsg e He).
+  unfold has_msg in Hmsg. cbn [k_book]. rewrite <- Hm.
+  destruct (en_msg e) as [m|]; [exists m; reflexivity | discriminate].
+Qed.
+
+(* Summary(results) is defined exactly when there is a posterior epoch and every occurring non-zero
+   code is documented in its kernel's error book *)
+Theorem summarize_defined : forall r, rectangular r ->
+  (summarize r <> None <->
+   existsb is_post (r_sched r) = true /\
+   forall kin c, In kin (r_kernels r) -> occurs_in_run (r_sched r) c kin -> lookup (k_book kin) c <> None).
+Proof.
+  intros r Hrect. split.
+  - intros Hne. destruct (summarize r) as [su|] eqn:Hsu; [|congruence].
+    split; [exact (proj1 (summarize_inv r su Hsu))|].
+    intros kin c Hk Hocc. apply In_nth_error in Hk. destruct Hk as [ki Hki].
+    destruct (messages_documented r su Hrect Hsu ki kin c Hki Hocc) as [m Hm]. congruence.
+  - intros [Hp Hdoc]. destruct Hrect as [n Hrect].
+    set (s := r_sched r) in *.
+    assert (Hs : s <> []) by (intros Heq; rewrite Heq in Hp; discriminate).
+    unfold summarize, posterior_samples. fold s. rewrite Hp.
+    rewrite (opt_all_map_some _ (kernel_entries s)).
+    2:{ intros k _. apply kernel_entries_of; assumption. }
+    assert (Hall : forallb (forallb has_msg) (map (kernel_entries s) (r_kernels r)) = true).
+    { apply forallb_forall. intros es Hes. apply in_map_iff in Hes. destruct Hes as [kin [<- Hk]].
+      apply forallb_forall. intros e He.
+      destruct kin as [book E]. pose proof (Hrect _ Hk) as HF. cbn [k_E] in HF.
+      pose proof (kernel_entries_of s (mkK book E) Hs Hp) as Hes.
+      destruct (codes_complete s book E n _ HF Hes) as [Hcodes _].
+      destruct (counts_exact s book E n _ HF Hp Hes e He) as [Hm _].
+      assert (Hocc : occurs_in_run s (en_code e) (mkK book E)) by (apply Hcodes; apply in_map; exact He).
+      specialize (Hdoc _ _ Hk Hocc). cbn [k_book] in Hdoc.
+      unfold has_msg. rewrite Hm. destruct (lookup book (en_code e)); [reflexivity | congruence]. }
+    rewrite Hall. discriminate.
+Qed.
+
+(* ---------------------------------------------------------------------------------------- *)
+(* the per-chain frame is literally the specification's comprehension                         *)
+Lemma sorted_ext : forall l1 l2, strictly_sorted l1 -> strictly_sorted l2 ->
+  (forall x, In x l1 <-> In x l2) -> l1 = l2.
+Proof.
+  intros l1 l2 H1. revert l2. induction H1 as [|x l1 Hx H1 IH]; intros l2 H2 Hiff.
+  - destruct l2 as [|y l2]; [reflexivity|]. exfalso. apply (proj2 (Hiff y)). left. reflexivity.
+  - destruct H2 as [|y l2 Hy H2].
+    + exfalso. apply (proj1 (Hiff x)). left. reflexivity.
+    + assert (Hxy : x = y).
+      { destruct (proj1 (Hiff x) (or_introl eq_refl)) as [Heq|Hin]; [congruence|].
+        destruct (proj2 (Hiff y) (or_introl eq_refl)) as [Heq|Hin']; [congruence|].
+        specialize (Hx y Hin'). specialize (Hy x Hin). lia. }
+      subst y. f_equal. apply IH; [exact H2|]. intros z. split; intros Hz.
+      * destruct (proj1 (Hiff z) (or_intror Hz)) as [Heq|Hin]; [|exact Hin].
+        subst z. specialize (Hx x Hz). lia.
+      * destruct (proj2 (Hiff z) (or_intror Hz)) as [Heq|Hin]; [|exact Hin].
+        subst z. specialize (Hy x Hz). lia.
+Qed.
+
+(* the non-zero codes some transition of the run returned, ascending *)
+Definition spec_codes (s : sched) (kin : kernel_in) : list nat :=
+  filter nz (unique (concat (map (firstn (total_dur s)) (k_E kin)))).
+
+Definition spec_df (s : sched) (si : sample_info) (ks : list kernel_in) : list drow :=
+  concat (concat (flat_map
+    (fun ke => map (fun c => [spec_group s si (fst ke) (snd ke) c Warmup;
+                              spec_group s si (fst ke) (snd ke) c Posterior])
+                   (spec_codes s (snd ke)))
+    (index_from 0 ks))).
+
+Lemma spec_codes_In : forall s kin c, In c (spec_codes s kin) <-> occurs_in_run s c kin.
+Proof.
+  intros s kin c. unfold spec_codes, occurs_in_run, occurs.
+  rewrite filter_In, unique_In, nz_true, in_concat. tauto.
+Qed.
+
+Lemma index_from_map : forall {X Y} (f : X -> Y) l i,
+  index_from i (map f l) = map (fun p => (fst p, f (snd p))) (index_from i l).
+Proof. intros X Y f l. induction l as [|x l IH]; intros i; cbn; [reflexivity | now rewrite IH]. Qed.
+
+Lemma flat_map_map : forall {X Y Z} (h : X -> Y) (g : Y -> list Z) l,
+  flat_map g (map h l) = flat_map (fun x => g (h x)) l.
+Proof. intros X Y Z h g l. induction l as [|x l IH]; cbn; [reflexivity | now rewrite IH]. Qed.
+
+Lemma kernel_entries_spec : forall s si ki kin n, s <> [] -> existsb is_post s = true ->
+  Forall (fun row => length row = n) (k_E kin) ->
+  map (entry_groups' ki si) (kernel_entries s kin) =
+  map (fun c => [spec_group s si ki kin c Warmup; spec_group s si ki kin c Posterior]) (spec_codes s kin).
+Proof.
+  intros s si ki [book E] n Hs Hp HF. cbn [k_E] in HF.
+  pose proof (kernel_entries_of s (mkK book E) Hs Hp) as Hes.
+  destruct (codes_complete s book E n _ HF Hes) as [Hcodes Hsorted].
+  assert (Hc : map en_code (kernel_entries s (mkK book E)) = spec_codes s (mkK book E)).
+  { apply sorted_ext; [exact Hsorted | apply sorted_filter, unique_sorted|].
+    intros c. rewrite spec_codes_In. apply Hcodes. }
+  rewrite <- Hc, map_map. apply map_ext_in. intros e He.
+  destruct (counts_exact s book E n _ HF Hp Hes e He) as [Hmsg [Htot [Hpst Hsub]]].
+  unfold entry_groups', spec_group. rewrite Hpst, (Hsub _ Hpst), map_map. cbn [k_book k_E]. rewrite Hmsg.
+  reflexivity.
+Qed.
+
+Theorem df_chain_is_spec : forall r su, rectangular r -> summarize r = Some su ->
+  su_df_chain su = Some (spec_df (r_sched r) (su_info su) (r_kernels r)).
+Proof.
+  intros r su [n Hrect] Hsu. destruct (summarize_inv r su Hsu) as [Hp [_ [Herr [Hdf _]]]].
+  set (s := r_sched r) in *. set (si := su_info su) in *.
+  assert (Hs : s <> []) by (intros Heq; rewrite Heq in Hp; discriminate).
+  rewrite Hdf, Herr. unfold error_df_chain. rewrite df_groups_some.
+  2:{ intros es e Hes He. apply in_map_iff in Hes. destruct Hes as [k [<- _]].
+      eapply kernel_entries_post; exact He. }
+  cbn [option_map]. unfold spec_df. do 3 f_equal.
+  rewrite index_from_map, flat_map_map. cbn [fst snd].
+  rewrite !flat_map_concat_map. f_equal. apply map_ext_in. intros [ki kin] Hin. cbn [fst snd].
+  apply index_from_In in Hin. destruct Hin as [j [_ Hj]].
+  apply (kernel_entries_spec s si ki kin n Hs Hp). apply Hrect. eapply nth_error_In; exact Hj.
 Qed.
 
 (* the mean of the per-chain relative frequencies is (sum of counts) / (chains * size) *)
@@ -915,7 +1076,7 @@ Qed.
 (* with a thinned posterior epoch the reported relative frequency is (error transitions) / (stored
    samples) and can exceed 1 *)
 Definition thinned_run : run :=
-  mkRun [mkEp true 4 2] [mkK [(1, "boom"%string)] [[1; 1; 1; 1]]] [0] [[1; 2; 3; 4]].
+  mkRun [mkEp true 4 2] [mkK [(1, "boom"%string)] [[1; 1; 1; 1]]] [0%Z] [[1; 2; 3; 4]%Z].
 
 Theorem relative_exceeds_one_refuted :
   ~ (forall r su rows x q, summarize r = Some su -> su_df_chain su = Some rows -> In x rows ->
@@ -935,8 +1096,8 @@ Definition ex_run : run :=
   mkRun ex_sched
         [ mkK [(1, "one"%string); (2, "two"%string)] [[0; 1; 0; 2; 0; 1; 0; 0; 2; 1; 0]; [0; 0; 0; 0; 0; 2; 2; 0; 0; 0; 0]];
           mkK [(3, "three"%string)] [[0; 0; 0; 0; 0; 0; 0; 0; 0; 0; 0]; [3; 0; 0; 0; 0; 0; 0; 0; 0; 0; 3]] ]
-        [7; 8]
-        [[1; 2; 3; 4; 5; 6; 7; 8; 9; 10; 11]; [1001; 1002; 1003; 1004; 1005; 1006; 1007; 1008; 1009; 1010; 1011]].
+        [7; 8]%Z
+        [[1; 2; 3; 4; 5; 6; 7; 8; 9; 10; 11]%Z; [1001; 1002; 1003; 1004; 1005; 1006; 1007; 1008; 1009; 1010; 1011]%Z].
 
 Lemma ex_run_rectangular : rectangular ex_run.
 Proof.
